@@ -52,7 +52,7 @@ func availableSolvers() []solverDef {
 func firstLine(s string) string {
 	for _, l := range strings.Split(s, "\n") {
 		l = strings.TrimSpace(l)
-		if l == "" || strings.HasPrefix(l, ";") || strings.HasPrefix(l, "(error") && false {
+		if l == "" || strings.HasPrefix(l, ";") || strings.HasPrefix(l, "WARNING") {
 			continue
 		}
 		return l
